@@ -272,6 +272,20 @@ NoLeak == leaks = 0
 \* C18: every text is transmitted at most once, plus at most one resend
 TransmitOnce == \A i, j \in DOMAIN txlog : i # j => txlog[i] # txlog[j]
 
+\* C01: an encrypted conversation reports the party that signed this very exchange, and
+\* its session secret is shared with that party's in-range DH value
+OwnerOf(id) == IF id > 100 /\ id < 200 THEN "A" ELSE IF id > 200 /\ id < 300 THEN "B" ELSE IF id > 300 /\ id < 400 THEN "E" ELSE "?"
+AuthInv ==
+  \A p \in Parties : st[p].ms = "enc" =>
+     /\ st[p].peer \in {"A", "B", "E"}
+     /\ st[p].sess[1] > 0 /\ st[p].sess[2] > 0
+     /\ {OwnerOf(st[p].sess[1]), OwnerOf(st[p].sess[2])} = {p, st[p].peer}
+     /\ st[p].tcur > 0 /\ OwnerOf(st[p].tcur) = st[p].peer
+AgreeInv ==
+  (st["A"].ms = "enc" /\ st["B"].ms = "enc" /\ st["A"].sess = st["B"].sess) =>
+     /\ st["A"].peer = "B" /\ st["B"].peer = "A"
+     /\ st["A"].rev # st["B"].rev
+
 \* C07: the key exchange completes
 BothEncrypted == /\ st["A"].ms = "enc" /\ st["B"].ms = "enc"
                  /\ st["A"].sess = st["B"].sess /\ st["A"].sess # <<0, 0>>
